@@ -156,9 +156,10 @@ func logicalVia(u *indexUnderTest, entries [][]interface{}, cols []string) [][]i
 
 // all the shape images both checks run on
 func forIndexImages(r *ev.Run, fn func(si *ShapeImage)) {
-	b := quickBounds(r)
-	r.Set("bounds", fmt.Sprintf("%+v", b))
-	forIndexShapes(r, b, fn)
+	r.Set("bounds", fmt.Sprintf("%+v", allBounds(r)))
+	for _, b := range allBounds(r) {
+		forIndexShapes(r, b, fn)
+	}
 	// T1 on varied rowid sets (all of T1's indexes at default shape) + T3; page size family
 	sizes := []int{512, 1024, 4096, 65536}
 	if r.Thorough() {
